@@ -458,6 +458,24 @@ def gen_all(ctx):
                 for cc in comps:
                     cases.append(dict(base, zones=zones, values=values, zdtype='float64', vdtype='float64', zone_ids=None,
                                       cat_ids=None, nodata=None, zchunks=[rc, cc], vchunks=[cc, rc], scheduler='synchronous'))
+    # appended: irregular zones / values chunk pairs (same per-axis max, same block count, one side unchunked)
+    for i in range(30 if q else 300):
+        kind = ['stats', 'xtab2', 'xtab3'][i % 3]
+        c = gen_case(rng, i, kind)
+        rows, cols = rng.randint(3, 8), rng.randint(2, 6)
+        c['zones'], _ = c02.gen_zones(rng, rows, cols, c['zdtype'], p_nan=0.04, p_pinf=0.02, p_ninf=0.02)
+        if not c02.finite_zone_ids(c['zones']):
+            c['zones'][0][0] = 1.0
+        c['zone_ids'] = None
+        if kind == 'xtab3':
+            c['layers'] = [c02.gen_values(rng, rows, cols, c['vdtype']) for _ in c['labels']]
+        else:
+            c['values'] = c02.gen_values(rng, rows, cols, c['vdtype'], small=(kind == 'xtab2'))
+            c['nodata'] = None
+            if kind == 'xtab2':
+                c['cat_ids'] = None
+        c['zchunks'], c['vchunks'], c['chunkmode'] = c02.chunk_pairs_2d(rng, rows, cols)
+        cases.append(c)
     return cases
 
 
